@@ -98,6 +98,40 @@ Proof. exact waiter_stays_or_woken. Qed.
 Print Assumptions C16_waiter_persists.
 
 (* ---------------------------------------------------------------------- *)
+(* two pieces of per-stream logic of compio-quic                            *)
+
+(* dropping a SendStream of a live connection without reset()/finish() closes it
+   towards the peer whatever its state: an open stream is finished, a stream the
+   peer has stopped is reset with the peer's code (so that the peer can release
+   it and hand its stream-count credit back), and the worker is woken to send it *)
+Theorem C16_drop_closes_stream : forall st,
+  closed_towards_peer (fst (send_drop false st)) = true /\
+  (closed_towards_peer st = false -> snd (send_drop false st) = true) /\
+  (forall c, st = SStopped c -> fst (send_drop false st) = SReset c).
+Proof. exact send_drop_closes. Qed.
+Print Assumptions C16_drop_closes_stream.
+
+(* read_to_end: whatever was consumed before, and in whatever order the
+   remaining chunks are delivered: if every chunk carries the stream's bytes at
+   its offset and the chunks leave no hole, the result is exactly the stream
+   from the lowest offset delivered to the end — right length, not shifted, no
+   filler *)
+Theorem C16_read_to_end_exact : forall d cs,
+  cs <> [] ->
+  (forall c, In c cs -> chunk_of d c) ->
+  (forall p, rte_start cs <= p < rte_end cs -> QuicWakersThm.covers cs p) ->
+  read_to_end_assemble cs = sub_list d (rte_start cs) (rte_end cs - rte_start cs).
+Proof. exact read_to_end_exact. Qed.
+Print Assumptions C16_read_to_end_exact.
+
+Example C16_nonvacuous_read_to_end :
+  read_to_end_assemble [(6, [17; 18]%N); (4, [15; 16]%N); (8, [19]%N)] = [15; 16; 17; 18; 19]%N /\
+  sub_list [11; 12; 13; 14; 15; 16; 17; 18; 19]%N 4 5 = [15; 16; 17; 18; 19]%N /\
+  send_drop false (SStopped 9%N) = (SReset 9%N, true) /\ send_drop false SOpen = (SFinished, true).
+Proof. vm_compute. repeat split; reflexivity. Qed.
+Print Assumptions C16_nonvacuous_read_to_end.
+
+(* ---------------------------------------------------------------------- *)
 (* non-vacuity: a concrete history with two streams, two tasks waiting for the
    handshake, a reader and a writer blocked, an accept waiting; events wake
    exactly their waiters; close wakes the rest; later polls return the error *)
